@@ -2,7 +2,8 @@
 indexed by the current simulation step, and the scripted lengths of the compose blocks."""
 import scenic.syntax.veneer as _veneer
 
-STATE = dict(table=[[False, False]], offset=0, waits=0, after=0, term=False)
+STATE = dict(table=[[False, False]], offset=0, waits=0, after=0, term=False,
+             doform=0, dofor=0, until=None, sublimit=0, subn=0, termstmt=False)
 CALLS = []
 
 
@@ -36,3 +37,31 @@ def WAITS():
 
 def AFTER():
     return STATE["after"]
+
+
+def DOFORM():
+    """how Main invokes Sub: 0 `do Sub()`, 1 `... for DOFOR() steps`, 2 `... for DOFOR() seconds`, 3 `... until UNTIL()`"""
+    return STATE["doform"]
+
+
+def DOFOR():
+    return STATE["dofor"]
+
+
+def UNTIL():
+    u = STATE["until"]
+    return u is not None and _now() >= u
+
+
+def SUBLIMIT():
+    """0: the sub-scenario has no time limit; 1: `terminate after SUBN() steps`; 2: `... seconds`"""
+    return STATE["sublimit"]
+
+
+def SUBN():
+    return STATE["subn"]
+
+
+def TERMSTMT():
+    """end the compose block with an explicit `terminate` statement instead of running off its end"""
+    return STATE["termstmt"]
